@@ -698,3 +698,17 @@ impl<K: Ord, V: Clone + Default + KeyValue<K>> SetTree<K, V> {
         }
     }
 }
+
+#[cfg(ishape_rust_itree_verif)]
+impl<K, V: Clone + Default> SetTree<K, V> {
+    /// Verification hook (read-only): root, free list and per-slot (parent, left, right, is_red, value).
+    pub fn verif_snapshot(&self) -> (u32, Vec<u32>, Vec<(u32, u32, u32, bool, V)>) {
+        let nodes = self
+            .store
+            .buffer
+            .iter()
+            .map(|n| (n.parent, n.left, n.right, n.color == Color::Red, n.value.clone()))
+            .collect();
+        (self.root, self.store.unused.clone(), nodes)
+    }
+}
